@@ -98,6 +98,9 @@ class IOPort(_P):
 GETDEV = '''
 def get_devices(**kwargs):
     L.LOG.append(('get_devices', __name__, dict(kwargs)))
+    if __name__[-1] in 'c':
+        # like the portmidi and pygame backends: the flags are ints (1 / 0), not bools
+        return [dict(d, is_input=int(d['is_input']), is_output=int(d['is_output'])) for d in DEVICES]
     return [dict(d) for d in DEVICES]
 '''
 DEVICES = [('A', True, False), ('B', True, True), ('C', False, True), ('B', True, True),
@@ -447,6 +450,13 @@ def concurrent_first_use(ctx, LOG):
     return 1
 
 
+class UserBackend(Backend):
+    """A user's Backend subclass: one method overridden (it only delegates), the rest inherited."""
+
+    def open_output(self, name=None, **kwargs):
+        return Backend.open_output(self, name, **kwargs)
+
+
 def set_backend_sequences(ctx, LOG):
     """set_backend rebinds open_*/get_* and mido.backend; same module, different API included."""
     saved_env = {k: os.environ.get(k) for k in ENVV}
@@ -457,6 +467,7 @@ def set_backend_sequences(ctx, LOG):
         [('vmonbk_c/X', False), ('vmonbk_c/Y', True), ('vmonbk_d', True), ('vmonbk_c/X', True)],
         [('OBJ:vmonbk_b/Q', True), ('vmonbk_b', True), ('OBJ:vmonbk_a/Z', True)],
         [('vmonbk_a/ALSA', True), ('vmonbk_a/ALSA', True), ('vmonbk_b/ALSA', True)],
+        [('vmonbk_a/ALSA', True), ('SUB:vmonbk_b/Q', True), ('vmonbk_c', True), ('SUB:vmonbk_d', True)],
     ]
     n = 0
     try:
@@ -467,6 +478,10 @@ def set_backend_sequences(ctx, LOG):
                 del LOG[:]
                 if spec.startswith('OBJ:'):
                     obj = Backend(spec[4:])
+                    mido.set_backend(obj)
+                    modapi = spec[4:]
+                elif spec.startswith('SUB:'):
+                    obj = UserBackend(spec[4:])         # a user subclass that overrides one method only
                     mido.set_backend(obj)
                     modapi = spec[4:]
                 else:
